@@ -2,8 +2,17 @@
 // a real MeterProvider / Meter / Counter / UpDownCounter of the repo's working tree, 1..4 explicit MetricReader
 // subclasses collected explicitly, driven by the op lines the Lean model driver (lean/Driver/C06.lean) also reads.
 //
-//   met cfg <D|C,...> <views: n:c|n:u,... or -> ; create <name> <cl|cd|ul|ud> ; add <handle> <attr> <value> ; collect <r>
-//       ; race <handle> <threads T> <adds N> <r> <collections K>
+//   met cfg <D|C|P|Q[~m],...> <views: n:c|n:u,... or -> ; create <name> <cl|cd|ul|ud> ; add <handle> <attr> <value> ; collect <r>
+//       ; race <handle> <threads T> <adds N> <r> <collections K> ; flush ; shutdown
+//
+// reader P / Q: a temporality selector by instrument type (P: delta for Counter, cumulative for UpDownCounter - the OTLP
+// "delta preference"; Q the other way round).  `~m` (m = 0..2): the reader is added through the
+// AddMetricReader(reader, MetricFilter) overload; the filter's TestMetric answers by the last digit x of the stream
+// name: (x+m)%3 = 0 accept, 1 drop, 2 accept-partial, and TestAttributes then accepts the attribute sets a with
+// (a+m) even.  `flush` / `shutdown` = MeterProvider::ForceFlush / Shutdown: neither consumes a measurement, and a
+// reader may go on collecting afterwards.  Instruments are created through the (name) / (name, description) /
+// (name, description, unit) forms in rotation by instrument, every third view carries a description: the exported
+// descriptor must show them ("?desc" / "?unit" otherwise).
 //
 // `race` is the supporting real-thread run for "measurements recorded concurrently with collections": reader r
 // collects once, then T recorder threads each Add 1 unit N times (thread t to attribute set t%3+1) through the handle
@@ -27,6 +36,7 @@
 #include "opentelemetry/metrics/sync_instruments.h"
 #include "opentelemetry/sdk/common/global_log_handler.h"
 #include "opentelemetry/sdk/metrics/data/metric_data.h"
+#include "opentelemetry/sdk/metrics/export/metric_filter.h"
 #include "opentelemetry/sdk/metrics/export/metric_producer.h"
 #include "opentelemetry/sdk/metrics/meter_context.h"
 #include "opentelemetry/sdk/metrics/meter_provider.h"
@@ -60,16 +70,27 @@ static TimeNs tick()
 class TestReader : public sdkm::MetricReader
 {
 public:
-  explicit TestReader(sdkm::AggregationTemporality t) : t_(t) {}
-  sdkm::AggregationTemporality GetAggregationTemporality(sdkm::InstrumentType) const noexcept override
+  explicit TestReader(char mode) : mode_(mode) {}
+  sdkm::AggregationTemporality GetAggregationTemporality(sdkm::InstrumentType t) const noexcept override
   {
-    return t_;
+    const bool counter = t == sdkm::InstrumentType::kCounter;
+    switch (mode_)
+    {
+      case 'D':
+        return sdkm::AggregationTemporality::kDelta;
+      case 'P':
+        return counter ? sdkm::AggregationTemporality::kDelta : sdkm::AggregationTemporality::kCumulative;
+      case 'Q':
+        return counter ? sdkm::AggregationTemporality::kCumulative : sdkm::AggregationTemporality::kDelta;
+      default:
+        return sdkm::AggregationTemporality::kCumulative;
+    }
   }
 
 private:
   bool OnForceFlush(std::chrono::microseconds) noexcept override { return true; }
   bool OnShutDown(std::chrono::microseconds) noexcept override { return true; }
-  sdkm::AggregationTemporality t_;
+  char mode_;
 };
 
 struct Handle
@@ -140,12 +161,18 @@ static std::vector<std::string> split(const std::string &s, char c)
 static bool setup(World &w, const std::vector<std::string> &op)
 {
   if (op.size() != 3 || op[0] != "cfg") return false;
-  std::vector<sdkm::AggregationTemporality> temps;
+  std::vector<std::pair<char, int>> temps;  // (mode, filter 0..2 or -1)
   for (auto &r : split(op[1], ','))
   {
-    if (r == "D") temps.push_back(sdkm::AggregationTemporality::kDelta);
-    else if (r == "C") temps.push_back(sdkm::AggregationTemporality::kCumulative);
-    else return false;
+    if (r.size() != 1 && r.size() != 3) return false;
+    if (r[0] != 'D' && r[0] != 'C' && r[0] != 'P' && r[0] != 'Q') return false;
+    int flt = -1;
+    if (r.size() == 3)
+    {
+      if (r[1] != '~' || r[2] < '0' || r[2] > '2') return false;
+      flt = r[2] - '0';
+    }
+    temps.emplace_back(r[0], flt);
   }
   if (temps.empty() || temps.size() > 4) return false;
   if (op[2] != "-")
@@ -171,15 +198,40 @@ static bool setup(World &w, const std::vector<std::string> &op)
         w.views[g].second ? sdkm::InstrumentType::kCounter : sdkm::InstrumentType::kUpDownCounter, iname, ""));
     std::unique_ptr<sdkm::MeterSelector> msel(new sdkm::MeterSelector("m", "", ""));
     // every other view names the aggregation explicitly (sum - what counters and up-down counters have by default anyway)
-    std::unique_ptr<sdkm::View> view(g % 2 == 1 ? new sdkm::View("v" + std::to_string(g), "", "", sdkm::AggregationType::kSum)
-                                                : new sdkm::View("v" + std::to_string(g)));
+    // ... and every third one carries a description, which replaces the instrument's in the exported descriptor
+    const std::string vdesc = g % 3 == 2 ? "vd" + std::to_string(g) : "";
+    std::unique_ptr<sdkm::View> view(g % 2 == 1 ? new sdkm::View("v" + std::to_string(g), vdesc, "", sdkm::AggregationType::kSum)
+                                                : (vdesc.empty() ? new sdkm::View("v" + std::to_string(g))
+                                                                 : new sdkm::View("v" + std::to_string(g), vdesc)));
     w.provider->AddView(std::move(isel), std::move(msel), std::move(view));
   }
   for (auto t : temps)
   {
-    auto r = std::make_shared<TestReader>(t);
+    auto r = std::make_shared<TestReader>(t.first);
     w.readers.push_back(r);
-    w.provider->AddMetricReader(r);
+    if (t.second < 0) w.provider->AddMetricReader(r);
+    else
+    {
+      const int m = t.second;
+      auto last_digit = [](nostd::string_view name) { return name.empty() ? 0 : (name[name.size() - 1] - '0'); };
+      auto test_metric = [m, last_digit](const opentelemetry::sdk::instrumentationscope::InstrumentationScope &,
+                                         nostd::string_view name, const sdkm::InstrumentType &, nostd::string_view) {
+        int x = (last_digit(name) + m) % 3;
+        return x == 0 ? sdkm::MetricFilter::MetricFilterResult::kAccept
+                      : (x == 1 ? sdkm::MetricFilter::MetricFilterResult::kDrop
+                                : sdkm::MetricFilter::MetricFilterResult::kAcceptPartial);
+      };
+      auto test_attrs = [m](const opentelemetry::sdk::instrumentationscope::InstrumentationScope &, nostd::string_view,
+                            const sdkm::InstrumentType &, nostd::string_view, const sdkm::PointAttributes &attrs) {
+        long long a = 0;
+        auto it     = attrs.GetAttributes().find("k");
+        if (it != attrs.GetAttributes().end() && nostd::holds_alternative<int64_t>(it->second))
+          a = nostd::get<int64_t>(it->second);
+        return (a + m) % 2 == 0 ? sdkm::MetricFilter::AttributesFilterResult::kAccept
+                                : sdkm::MetricFilter::AttributesFilterResult::kDrop;
+      };
+      w.provider->AddMetricReader(r, sdkm::MetricFilter::Create(test_metric, test_attrs));
+    }
   }
   w.meter = w.provider->GetMeter("m");
   tick();
@@ -231,9 +283,25 @@ static std::string stream_label(const World &w, const sdkm::InstrumentDescriptor
   const std::string &n = d.name_;
   long long x;
   if (n.size() < 2 || !parse_nat(n.substr(1), x)) return "?name:" + n;
-  if (n[0] == 'i') return std::to_string(x) + "." + kind + ".0";
+  // the descriptor must carry the description / unit the instrument was created with (the view's description when it
+  // has one): variant = (instrument name + kind) % 3, see `create`
+  auto desc_ok = [&](long long iname, const std::string &view_desc) {
+    int ki      = (kind[0] == 'c' ? 0 : 2) + (kind[1] == 'd' ? 1 : 0);
+    int variant = static_cast<int>((iname + ki) % 3);
+    std::string want_desc = variant >= 1 ? "d" + std::to_string(iname) : "";
+    if (!view_desc.empty()) want_desc = view_desc;
+    std::string want_unit = variant == 2 ? "By" : "";
+    return std::string(d.description_ != want_desc ? "?desc:" + d.description_ : (d.unit_ != want_unit ? "?unit:" + d.unit_ : ""));
+  };
+  if (n[0] == 'i')
+  {
+    std::string bad = desc_ok(x, "");
+    return bad.empty() ? std::to_string(x) + "." + kind + ".0" : bad;
+  }
   if (n[0] == 'v' && static_cast<size_t>(x) < w.views.size())
   {
+    std::string bad = desc_ok(w.views[x].first, x % 3 == 2 ? "vd" + std::to_string(x) : "");
+    if (!bad.empty()) return bad;
     size_t pos = 0;
     for (size_t g = 0; g < static_cast<size_t>(x); g++)
       if (w.views[g] == w.views[x]) pos++;
@@ -306,11 +374,20 @@ static std::string handle_met(const std::vector<std::string> &t)
         // the buffer dies right after the call, so the SDK must own its copy
         std::unique_ptr<std::string> name(new std::string("i" + std::to_string(n)));
         nostd::string_view nm(name->data(), name->size());
-        if (op[2] == "cl") h->cl = w.meter->CreateUInt64Counter(nm);
-        else if (op[2] == "cd") h->cd = w.meter->CreateDoubleCounter(nm);
-        else if (op[2] == "ul") h->ul = w.meter->CreateInt64UpDownCounter(nm);
-        else if (op[2] == "ud") h->ud = w.meter->CreateDoubleUpDownCounter(nm);
-        else return "bad-op";
+        // the three forms (name) / (name, description) / (name, description, unit) rotate by instrument: every handle of
+        // one instrument uses the same form (the stream keeps the descriptor of the handle that created it)
+        int ki = op[2] == "cl" ? 0 : (op[2] == "cd" ? 1 : (op[2] == "ul" ? 2 : (op[2] == "ud" ? 3 : -1)));
+        if (ki < 0) return "bad-op";
+        int variant = static_cast<int>((n + ki) % 3);
+        std::unique_ptr<std::string> desc(new std::string("d" + std::to_string(n)));
+        std::unique_ptr<std::string> unit(new std::string("By"));
+        nostd::string_view ds(desc->data(), desc->size()), us(unit->data(), unit->size());
+#define CREATE(F) (variant == 0 ? w.meter->F(nm) : (variant == 1 ? w.meter->F(nm, ds) : w.meter->F(nm, ds, us)))
+        if (ki == 0) h->cl = CREATE(CreateUInt64Counter);
+        else if (ki == 1) h->cd = CREATE(CreateDoubleCounter);
+        else if (ki == 2) h->ul = CREATE(CreateInt64UpDownCounter);
+        else h->ud = CREATE(CreateDoubleUpDownCounter);
+#undef CREATE
       }
       outs.push_back("h" + std::to_string(w.handles.size()));
       w.handles.push_back(std::move(h));
@@ -393,6 +470,12 @@ static std::string handle_met(const std::vector<std::string> &t)
       std::sort(mds.begin(), mds.end());
       outs.push_back("[" + vh::join(mds, " | ") + "]");
     }
+    else if (op.size() == 1 && (op[0] == "flush" || op[0] == "shutdown"))
+    {
+      // neither takes a measurement away from anyone; TestReader's OnForceFlush / OnShutDown succeed
+      bool ok = op[0] == "flush" ? w.provider->ForceFlush() : w.provider->Shutdown();
+      outs.push_back(ok ? "ok" : "failed");
+    }
     else if (op.size() == 6 && op[0] == "race")
     {
       long long hd, T, N, r, K;
@@ -411,8 +494,6 @@ static std::string handle_met(const std::vector<std::string> &t)
           else h.ud->Add(1.0 / 1024.0, kv);
         });
       };
-      bool delta = w.readers[r]->GetAggregationTemporality(sdkm::InstrumentType::kCounter) ==
-                   sdkm::AggregationTemporality::kDelta;
       std::map<std::string, std::map<long long, long long>> acc;  // label -> attr -> units
       bool bad = false;
       auto collect_once = [&]() {
@@ -431,6 +512,7 @@ static std::string handle_met(const std::vector<std::string> &t)
           size_t sp = text.find(' '), br = text.find('{');
           std::string label = text.substr(0, sp);
           auto &m           = acc[label];
+          const bool delta  = md.aggregation_temporality == sdkm::AggregationTemporality::kDelta;
           if (!delta) m.clear();
           std::string body = text.substr(br + 1, text.size() - br - 2);
           if (body.empty()) continue;
